@@ -39,6 +39,40 @@ class Finding:
                                                         self.function or '-', self.construct)
 
 
+def _plain_sig(fid):
+    """function id with top-level `const` of by-value parameters and the trailing member `const` removed"""
+    import re as _re
+    if '(' not in fid or '::<lambda@' in fid:
+        return fid
+    i = fid.rfind('(')
+    j = fid.rfind(')')
+    if j < i:
+        return fid
+    params = fid[i + 1:j]
+    parts, depth, cur = [], 0, ''
+    for ch in params:
+        if ch in '<(':
+            depth += 1
+        elif ch in '>)':
+            depth -= 1
+        if ch == ',' and depth == 0:
+            parts.append(cur)
+            cur = ''
+        else:
+            cur += ch
+    parts.append(cur)
+    out = []
+    for p_ in parts:
+        q = p_.strip()
+        if q.startswith('const ') and not q.endswith(('&', '*')):
+            q = q[len('const '):]
+        out.append(q)
+    tail = fid[j + 1:]
+    if tail.strip() == 'const':
+        tail = ''
+    return fid[:i + 1] + ','.join(out) + ')' + tail
+
+
 class Ctx:
     """Per-check context handed to a property's rule module."""
 
@@ -127,6 +161,15 @@ class Ctx:
             # cv-qualification of a member function is not part of what a rule anchors on
             alt = fid[:-len(' const')] if fid.endswith(' const') else fid + ' const'
             f = F.get(alt)
+        if f is None:
+            # neither is `const` on a by-value parameter (`void f(const u16 n)` is the same function as `void f(u16 n)`)
+            if not hasattr(self, '_sig_index'):
+                self._sig_index = {}
+                for k in F:
+                    self._sig_index.setdefault(_plain_sig(k), []).append(k)
+            c = self._sig_index.get(_plain_sig(fid), [])
+            if len(c) == 1:
+                f = F[c[0]]
         return f
 
     def fn(self, fid):
